@@ -5,7 +5,7 @@ from .model import *
 
 VERIF = os.path.dirname(os.path.dirname(os.path.abspath(__file__)))
 REPO = os.environ.get("VERIF_REPO", "/repo")
-WORK = os.path.join(VERIF, ".work")
+WORK = os.environ.get("VERIF_WORK") or os.path.join(VERIF, ".work")
 ANNOTATOR = os.path.join(VERIF, "annotator", "target", "debug", "annotator")
 NCPU = int(os.environ.get("VERIF_JOBS", "16"))
 
